@@ -104,6 +104,15 @@ Theorem C05_whole_txn_partial :
      forall sref l, read_series rd (st_series st sref) = Some l -> forall x, In x l -> s_owner x <> a).
 Proof. exact whole_txn_partial. Qed.
 
+(* isolation.lowWatermark() (oldest open reader's watermark, else lowest open appendID, else
+   last issued id) never decreases along a valid trace, whatever appenders and readers do. *)
+Theorem C05_watermark_monotone :
+  forall tr1 tr2 st1 st2,
+    run init tr1 = ROk st1 -> run st1 tr2 = ROk st2 ->
+    low_watermark (st_last st1) (st_open st1) (st_readers st1) <=
+    low_watermark (st_last st2) (st_open st2) (st_readers st2).
+Proof. exact watermark_monotone. Qed.
+
 (* No step of a valid trace hits a Go panic (ring index / slice bounds). *)
 Theorem C05_no_panic : forall tr, run init tr <> RPanic.
 Proof. exact no_panic. Qed.
@@ -141,4 +150,21 @@ Proof.
   destruct (run init tr_ex) as [st| |] eqn:E; [|vm_compute in E; discriminate|vm_compute in E; discriminate].
   exists st. vm_compute in E. injection E as <-.
   eexists (mkR 7 2 [2] 2 [1]), (mkS 10 1000 1). vm_compute. repeat split; auto.
+Qed.
+
+(* the watermark really moves: 2 when reader 7 has just been created (appender 1 closed,
+   appender 2 open), 3 after tr_ex followed by closing the reader and appender 2 *)
+Example C05_watermark_moves :
+  exists st1 st2,
+    run init (firstn 7 tr_ex) = ROk st1 /\ run st1 (skipn 7 tr_ex ++ [ECloseReader 7; EClose 2]) = ROk st2 /\
+    low_watermark (st_last st1) (st_open st1) (st_readers st1) = 2 /\
+    low_watermark (st_last st2) (st_open st2) (st_readers st2) = 3.
+Proof.
+  destruct (run init (firstn 7 tr_ex)) as [st1| |] eqn:E1; [|vm_compute in E1; discriminate|vm_compute in E1; discriminate].
+  exists st1.
+  destruct (run st1 (skipn 7 tr_ex ++ [ECloseReader 7; EClose 2])) as [st2| |] eqn:E2.
+  - exists st2. vm_compute in E1. injection E1 as <-. vm_compute in E2. injection E2 as <-.
+    vm_compute. repeat split; auto.
+  - vm_compute in E1. injection E1 as <-. vm_compute in E2. discriminate.
+  - vm_compute in E1. injection E1 as <-. vm_compute in E2. discriminate.
 Qed.
